@@ -13,6 +13,7 @@ from contracts import c12_rxn_arith as ARITH
 from contracts import c02_add_metabolites_ctx as AMC
 from contracts import c02_remove_metabolites_ctx as RMC
 from contracts import c02_remove_genes as RG
+from contracts import c02_rename_genes as RN
 from props._generic import run_property, replay_with_driver
 
 LEVEL = "other"
@@ -36,9 +37,9 @@ def run(rep):
     run_property(rep, KEYS, more=[(RENAME_KEYS, c02_rename.HOOKS), (BOUNDARY_KEYS, c02_boundary.HOOKS), (KEYS_UG, U.HOOKS), (KEYS_AM, AM.HOOKS),
                                    (KEYS_RR, RR.HOOKS), (GR.KEYS, GR.HOOKS), (RM.KEYS, RM.HOOKS), (RAM.KEYS, RAM.HOOKS),
                                    (RAM.KEYS_SUB, RAM.HOOKS_SUB), (AR.KEYS, AR.HOOKS), (RRC.KEYS, RRC.HOOKS), (ARC.KEYS, ARC.HOOKS),
-                                   (AMC.KEYS, AMC.HOOKS), (RMC.KEYS, RMC.HOOKS), (RG.KEYS, RG.HOOKS)] + list(ARITH.GROUPS),
+                                   (AMC.KEYS, AMC.HOOKS), (RMC.KEYS, RMC.HOOKS), (RG.KEYS, RG.HOOKS), (RN.KEYS_VISIT, RN.HOOKS_VISIT), (RN.KEYS, RN.HOOKS)] + list(ARITH.GROUPS),
                  lemmas=lambda: (U.lemmas() + RAM.lemmas() + RRC.lemmas() + ARC.lemmas() + ARITH.lemmas() + AMC.lemmas()
-                                 + RMC.lemmas()), explanation=(
+                                 + RMC.lemmas() + RN.lemmas()), explanation=(
         "Model.add_reactions with a context open (key Model.add_reactions[context]; lists, models and stoichiometries of any size, any depth of the context stack): the final state exactly as the no-context contract proves it (same formulas) PLUS the undo registrations as a ghost trace, all in the INNERMOST context, nothing twice: per added reaction r a block setattr(r, _model, None), then for every key x of r._metabolites at exit x._reaction.remove(r) - registered only where the x._reaction.add(r) it inverts changed the set - or the recorded call add_metabolites(x) (x joined; the callee's own registrations, ASSUMED: in a context it changes the state as its no-context contract says), then the recorded call r.update_genes_from_gpr() (its proved in-context case), blocks in the order of pruned, and last reactions.__isub__(pruned) registered after `reactions += pruned`; glue lemmas undo-restores (membership of model.reactions, _model of reactions, _reaction sets of the entry members of model.metabolites); stated precondition own-keys-do-not-list (a key of a to-be-added reaction that is a member of model.metabolites does not list it at entry: otherwise the unguarded else-branch registers a remove for a no-op add - not reachable through the public API at the repaired commit); the re-pointing of the stoichiometry keys has no inverse and needs none (the reaction is outside the model at entry and exit). "
         "Deductive part: the clauses `identifiers are unique` and `every listed object is the one found by looking up its "
         "identifier` hold because every model edit changes model.reactions/metabolites/genes/groups only through the DictList "
@@ -173,9 +174,27 @@ def run(rep):
         "contract, attribute deleted for None; rule trees of different GPR objects are disjoint and do not read the body "
         "field), the remover's constructor, gene_reaction_rule is empty exactly for a rule without body, "
         "Group.remove_members(<one object>) wraps it into a list. "
+        "cobra.manipulation.rename_genes (no context open; models and dictionaries of any size; stated restriction PRE1: every new "
+        "identifier is unused in the model, is not itself a key of the dictionary - no chains, no identity entries - and two keys "
+        "naming genes of the model have different new identifiers - no merge): loop invariant `model.genes is a well-formed "
+        "DictList with its entry members in place after EVERY entry` (the index is rebuilt per renamed gene), a member whose entry "
+        "identifier is a handled key carries exactly the new identifier, no other identifier changed; in the state in which "
+        "model.repair() is called (recorded, exactly once): every gene named by a key is found under its new identifier at its old "
+        "position and not under the old one, every other member as before; the rules visited by _Renamer are exactly those of the "
+        "reactions listed (at entry) by a renamed gene, each visited rule satisfies - for an arbitrary set K of absent genes - "
+        "new rule with K absent == old rule with {k : rename(k) in K} absent, every other rule keeps its value; model pointers, "
+        "reaction / gene sets, groups, model.reactions, tags, operators and child lists are untouched before repair(). "
+        "_Renamer.visit_Name is PROVED on the real source (the node itself returned, exactly its identifier becomes "
+        "rename_dict.get(id, id), the value clause above for the node) together with the induction step (lemma "
+        "renamer/induction-step) that lifts it to and/or nodes and the root. Assumed there: NodeTransformer's visit of the root "
+        "GPR object (every Name below by the proved visit_Name, tree induction with the proved step, rule trees of different GPR "
+        "objects disjoint), the renamer's constructor, the Object.id setter for a string (`_id := value`), GPR.copy returns "
+        "another object; Model.repair() recorded, its write set havocked - the re-derivation of the gene sets by "
+        "update_genes_from_gpr inside repair() is NOT composed. Calls with dependent entries (chains, two old identifiers onto one "
+        "new one, a new identifier already in use = the merge branch with its group repair 7173bc7) are outside the stated case. "
         "The documented effect of each other public "
         "editing operation on stoichiometry, gene sets, back-references and groups (add_reactions inside a context, "
-        "remove_genes inside a context and its final cross-reference clause, rename_genes, merge), the parsing of the rule text and what the "
+        "remove_genes inside a context and its final cross-reference clause, rename_genes with dependent entries / merges / inside a context, merge), the parsing of the rule text and what the "
         "registered undo functions do when they run are NOT "
         "proved - those functions mix sympy/optlang calls, string parsing and nested loops outside the supported subset: bounded "
         "driver (histories compared step by step with an executable reference description + Inv_XRef after every step)."),
@@ -205,6 +224,10 @@ def run(rep):
                  "rule trees of different GPR objects disjoint, not reading the body field), _GeneRemover(ids) constructor, "
                  "gene_reaction_rule empty iff no body, Group.remove_members(one object) = remove_members([object]); "
                  "Model.remove_reactions / update_genes_from_gpr recorded there, write sets havocked",
+                 "rename_genes: ast.NodeTransformer visit of the root GPR object by _Renamer (every Name node by the proved "
+                 "visit_Name, tree induction with the proved step lemma, rule trees of different GPR objects disjoint), "
+                 "_Renamer(d) constructor, Object.id setter for a string = `_id := value`, GPR.copy returns another object; "
+                 "Model.repair() recorded, write set havocked",
                  "Reaction.add_metabolites: model.constraints[name] / constraint.set_linear_coefficients as a ghost matrix (assumed "
                  "optlang contracts); Model.add_metabolites applied at the call site by its proved contract plus: does not raise for "
                  "pairwise different new identifiers (obliged), add_cons_vars makes the constraints findable by name"])
